@@ -389,6 +389,37 @@ func (e *Executor) runCommand(ctx context.Context, t *ast.Task, call *Call, i in
 // deduplicated (run: once / when_changed) execution that ended without error.
 var errExecutionSucceeded = errors.New("task: execution succeeded")
 
+// executionKey is the context key under which a deduplicated execution records
+// itself in the context of everything it runs: the value is the chain of the
+// executions (their hashes) that the holder of the context is part of.
+type executionKey struct{}
+
+func executionChain(ctx context.Context) []string {
+	chain, _ := ctx.Value(executionKey{}).([]string)
+	return chain
+}
+
+// waitWouldNeverEnd reports whether a call that is part of the executions in
+// chain must not wait for the execution h: h is one of them, or it is waiting
+// (directly or through others) for one of them. The caller holds
+// executionHashesMutex.
+func (e *Executor) waitWouldNeverEnd(chain []string, h string) bool {
+	seen := map[string]bool{}
+	pending := []string{h}
+	for len(pending) > 0 {
+		cur := pending[len(pending)-1]
+		pending = pending[:len(pending)-1]
+		if slices.Contains(chain, cur) {
+			return true
+		}
+		if !seen[cur] {
+			seen[cur] = true
+			pending = append(pending, e.executionWaits[cur]...)
+		}
+	}
+	return false
+}
+
 func (e *Executor) startExecution(ctx context.Context, t *ast.Task, execute func(ctx context.Context) error) error {
 	h, err := e.GetHash(t)
 	if err != nil {
@@ -401,7 +432,25 @@ func (e *Executor) startExecution(ctx context.Context, t *ast.Task, execute func
 
 	e.executionHashesMutex.Lock()
 
+	chain := executionChain(ctx)
+
 	if otherExecutionCtx, ok := e.executionHashes[h]; ok {
+		// The execution we would wait for is one this call is part of, or one
+		// that is itself waiting for one of those: a cycle. Waiting for it
+		// would never end.
+		if e.waitWouldNeverEnd(chain, h) {
+			e.executionHashesMutex.Unlock()
+			return &errors.TaskCalledTooManyTimesError{
+				TaskName:        t.Task,
+				MaximumTaskCall: MaximumTaskCall,
+			}
+		}
+		if e.executionWaits == nil {
+			e.executionWaits = map[string][]string{}
+		}
+		for _, c := range chain {
+			e.executionWaits[c] = append(e.executionWaits[c], h)
+		}
 		e.executionHashesMutex.Unlock()
 		e.Logger.VerboseErrf(logger.Magenta, "task: skipping execution of task: %s\n", h)
 
@@ -410,6 +459,13 @@ func (e *Executor) startExecution(ctx context.Context, t *ast.Task, execute func
 		defer reacquire()
 
 		<-otherExecutionCtx.Done()
+		e.executionHashesMutex.Lock()
+		for _, c := range chain {
+			if i := slices.Index(e.executionWaits[c], h); i >= 0 {
+				e.executionWaits[c] = slices.Delete(e.executionWaits[c], i, i+1)
+			}
+		}
+		e.executionHashesMutex.Unlock()
 		// The task ran only once: how that execution ended is our result too
 		if cause := context.Cause(otherExecutionCtx); cause != errExecutionSucceeded {
 			return cause
@@ -417,7 +473,8 @@ func (e *Executor) startExecution(ctx context.Context, t *ast.Task, execute func
 		return nil
 	}
 
-	ctx, cancel := context.WithCancelCause(ctx)
+	// Everything that runs as part of this execution carries its mark
+	ctx, cancel := context.WithCancelCause(context.WithValue(ctx, executionKey{}, append(slices.Clip(chain), h)))
 
 	e.executionHashes[h] = ctx
 	e.executionHashesMutex.Unlock()
